@@ -602,3 +602,43 @@ def _nonempty_filter(test, var):
     from . import intcmp
     r = intcmp.emptiness(test, lambda e: isinstance(e, ast.Name) and e.id == var)
     return r == 'nonempty'
+
+
+# ---------------------------------------------------------------------- A14r: sibling reductions agree on the axis
+_REDUCTIONS = {'any', 'all', 'sum', 'max', 'min', 'prod', 'mean', 'argmax', 'argmin', 'count_nonzero'}
+
+
+def check_sibling_reductions(ctx, rule='A14r', prefix='adsg_core.optimization'):
+    """Within one function, numpy reductions over the *same array* (directly or compared with some value) agree on
+    whether they reduce along an axis: `np.any(t == A, axis=0)` next to `np.any(t == B)` computes one flag per
+    column for A and one flag for the whole table for B.  On the pinned tree every one of the groups of such
+    sibling reductions is unanimous."""
+    n = groups = 0
+    for fn in ctx.prog.all_functions():
+        if not fn.module.name.startswith(prefix) or isinstance(fn.node, ast.Lambda):
+            continue
+        by = {}
+        for c in ast.walk(fn.node):
+            if isinstance(c, ast.Call) and isinstance(c.func, ast.Attribute) and norm(c.func.value) in ('np', 'numpy') \
+                    and c.func.attr in _REDUCTIONS and c.args:
+                a = c.args[0]
+                base = a.left if isinstance(a, ast.Compare) else a
+                while isinstance(base, ast.UnaryOp):
+                    base = base.operand
+                by.setdefault(norm(base), []).append((c, any(k.arg == 'axis' for k in c.keywords) or len(c.args) > 1))
+        for key, sites in by.items():
+            if len(sites) < 2:
+                continue
+            groups += 1
+            with_axis = [c for c, ax in sites if ax]
+            without = [c for c, ax in sites if not ax]
+            ok = not (with_axis and without)
+            n += 1
+            ctx.touch(fn)
+            ctx.ob(rule, fkey(fn, rule, f'reductions-of:{key[:50]}'), ok, f'{fn.module.relpath}:{sites[0][0].lineno}',
+                   f'the {len(sites)} reductions of `{key[:60]}` in {fn.qualname} agree on reducing along an axis',
+                   'unanimous' if ok else
+                   f'L{without[0].lineno} `{short(without[0], 60)}` reduces the whole table while L{with_axis[0].lineno} '
+                   f'`{short(with_axis[0], 60)}` reduces along an axis')
+    ctx.floor(rule, 8, 'groups of sibling reductions')
+    return n
